@@ -113,7 +113,7 @@ def _run_history(order: list[int], props: list[dict[str, Any]], sb: Any, hr: ran
         stored = m.get_target_power(pm.CID)
         fresh_t = m.calculate_target_power(pm.CID, None, sb, True)
         rec.count("bounds_shrink_and_recover_checks")
-        if (stored is None) != (fresh_t is None) or (stored is not None and abs(stored.as_watts() - fresh_t.as_watts()) > 1e-6):
+        if (stored is None) != (fresh_t is None) or (stored is not None and not abs(stored.as_watts() - fresh_t.as_watts()) <= 1e-6):
             rec.violation("stored-target-depends-on-earlier-system-bounds",
                           {"stored_after_bounds_recovered": None if stored is None else stored.as_watts(),
                            "recomputed": None if fresh_t is None else fresh_t.as_watts(), "sys": sys, "excl": excl})
@@ -209,7 +209,7 @@ def check(case: dict[str, Any], rec: Any) -> None:
             fresh2.calculate_target_power(CID2, pm.mk_proposal(q, cid=CID2), sb, True)
         e2 = fresh2.calculate_target_power(CID2, None, sb, True)
         rec.count("expiry_checks")
-        if t2 is None or e2 is None or abs(t2.as_watts() - e2.as_watts()) > 1e-6:
+        if t2 is None or e2 is None or not abs(t2.as_watts() - e2.as_watts()) <= 1e-6:
             rec.violation("second-group-target-depends-on-other-groups-proposals-or-expiry",
                           {"after_drop": None if t2 is None else t2.as_watts(),
                            "fresh_with_live_only": None if e2 is None else e2.as_watts(), "drop_at": drop_at,
@@ -225,7 +225,7 @@ def check(case: dict[str, Any], rec: Any) -> None:
         fresh.calculate_target_power(pm.CID, pm.mk_proposal(p), sb, True)
     expect = _target(fresh, sb)
     rec.count("expiry_checks")
-    if after is None or expect is None or abs(after - expect) > 1e-6:
+    if after is None or expect is None or not abs(after - expect) <= 1e-6:
         rec.violation("expired-proposals-still-count-or-live-dropped",
                       {"after_drop": after, "fresh_with_live_only": expect, "drop_at": drop_at,
                        "live": [p["src"] for p in live]})
